@@ -399,13 +399,50 @@ def guard_info(facts, b):
         seen.add(l)
         create = None
         path_ok = False
+        gty = b.lty(l)
         for b2, i, st in b.stmts():
             if st['k'] == 'assign' and pkey(st['lhs']) == (l, ()) and 'agg' in st['rv']:
                 create = b2
                 path_ok = any(is_path_of(b, o, 'output_path') for o in st['rv']['ops'])
+            elif st['k'] == 'assign' and pkey(st['lhs']) == (l, ()) and 'use' in st['rv'] and op_local(st['rv']['use']) is not None:
+                # `guard = move tmp` with `tmp = Guard { .. }` (a constructor inlined by hand or by the engine)
+                for b3, kind, rv in b.defs().get(op_local(st['rv']['use']), ()):
+                    if kind == 'stmt' and 'agg' in rv:
+                        create = b2
+                        path_ok = any(is_path_of(b, o, 'output_path') or (op_local(o) is not None and any(kind2 == 'stmt' and 'use' in rv2 and is_path_of(b, rv2['use'], 'output_path')
+                                                                                                        for _b4, kind2, rv2 in b.defs().get(op_local(o), ()))) for o in rv['ops'])
+        # a constructor function: the guard is the result of a call whose body returns the aggregate built from its parameters
+        for b2, kind, t2 in b.defs().get(l, ()):
+            if kind != 'call' or create is not None:
+                continue
+            cbd = facts.body(cpath(t2) or '')
+            if cbd is None or not cbd.lty(0).split('<')[0] == gty.split('<')[0]:
+                continue
+            aggs = [st for _b3, _i, st in cbd.stmts() if st['k'] == 'assign' and 'agg' in st['rv'] and isinstance(st['rv']['agg'], dict) and st['rv']['agg'].get('adt', '').split('<')[0] == gty.split('<')[0]]
+            if len(aggs) == 1:
+                create = b2
+                # which parameter becomes the path field, and is the corresponding argument the output path?
+                for o in aggs[0]['rv']['ops']:
+                    r0 = cbd.op_root(o)[0]
+                    if 1 <= r0 <= cbd.arg_count and r0 - 1 < len(t2['args']) and is_path_of(b, t2['args'][r0 - 1], 'output_path'):
+                        path_ok = True
         disarm = []
         for b2, i, st in b.stmts():
             if st['k'] == 'assign' and st['lhs']['l'] == l and st['lhs']['p']:
+                disarm.append(b2)
+            elif st['k'] == 'assign' and st['lhs']['p'] and st['lhs']['p'][0] == 'deref' and len(st['lhs']['p']) > 1 and b.root(st['lhs']['l'], stop_named=True)[0] == l:
+                disarm.append(b2)       # through `&mut guard` (a disarm method inlined)
+        # a disarm method: a call handing over `&mut guard` to a function of the guard's type that stores into one of its fields
+        for b2, t2 in b.calls():
+            if not t2['args'] or t2['k'] != 'call':
+                continue
+            a0 = t2['args'][0]
+            la = op_local(a0)
+            if la is None or not b.lty(la).startswith('&mut ') or b.op_root(a0)[0] != l:
+                continue
+            mbd = facts.body(cpath(t2) or '')
+            if mbd is not None and any(st['k'] == 'assign' and st['lhs']['l'] == 1 and st['lhs']['p'] and st['lhs']['p'][0] == 'deref' and len(st['lhs']['p']) > 1
+                                       for _b3, _i, st in mbd.stmts()):
                 disarm.append(b2)
         moved = False
         for b2, t2 in b.calls():
